@@ -380,6 +380,86 @@ def twice_included_cli(ctx, res):
                                    "observed": {"%s.%s" % k: sorted(v) for k, v in sorted(ev.items())}})
 
 
+CFG_HEADER = """From Coq Require Import List Arith Bool. Import ListNotations.
+From TaskctlV Require Import Model.Sched.
+Definition ranb (x : status) := match x with Done | Error => true | _ => false end.
+Definition cfg_ok (c : config * list bool * (list bool * bool)) : bool :=
+  let '(cf, outs, (ran, failed)) := c in
+  let f := final cf (fun i => nth i outs true) in
+  forallb (fun i => Bool.eqb (ranb (f i)) (nth i ran false)) (seq 0 (length cf))
+  && Bool.eqb failed (existsb (fun i => status_eqb (f i) Error && negb (allow_of cf i)) (seq 0 (length cf))).
+"""
+CFG_FOOTER = """
+Definition BAD := Eval vm_compute in map fst (filter (fun c => negb (cfg_ok (snd c))) cases).
+Print BAD.
+"""
+
+
+def config_cli(ctx, res):
+    """C02 through the binary, pipelines BUILT FROM A CONFIGURATION FILE: random DAGs whose stages are tasks or included one-stage pipelines,
+    with allow_failure and false conditions at stage level, shuffled declaration order: which stages ran and whether the process failed are
+    compared with the declarative end state of Model/Sched.v (final)."""
+    import clilib
+    rng = vlib.rng_for(ctx.seed, "C02config")
+    jobs = []
+    for k in range(120 if ctx.tier == "thorough" else 36):
+        n = rng.randint(2, 6)
+        sts = []
+        for i in range(n):
+            sts.append({"kind": rng.choice(["task", "task", "pipeline"]), "ok": rng.random() < 0.6, "allow": rng.random() < 0.4, "cond": rng.choice(["none", "none", "none", "false"]),
+                        "deps": sorted(rng.sample(range(i), rng.randint(0, min(i, 2))))})
+        tasks, pipes, stages = {}, {}, []
+        for i, st in enumerate(sts):
+            tasks["t%d" % i] = {"command": ['touch "$PROJ/m.%d"; exit %d' % (i, 0 if st["ok"] else 3)]}
+            d = {"name": "s%d" % i}
+            if st["kind"] == "task":
+                d["task"] = "t%d" % i
+            else:
+                pipes["q%d" % i] = [{"task": "t%d" % i}]
+                d["pipeline"] = "q%d" % i
+            if st["allow"]:
+                d["allow_failure"] = True
+            if st["cond"] == "false":
+                d["condition"] = "false"
+            if st["deps"]:
+                d["depends_on"] = ["s%d" % x for x in st["deps"]]
+            stages.append(d)
+        rng.shuffle(stages)
+        pipes["p"] = stages
+        jobs.append({"id": k, "files": {"cfg.json": clilib.jcfg({"tasks": tasks, "pipelines": pipes})}, "argv": ["-c", "cfg.json", "--raw", "run", "pipeline", "p"],
+                     "keep": ["m.%d" % i for i in range(n)], "timeout": 25, "sts": sts})
+    out = clilib.run_cli(ctx.workdir + "/cfgcli", jobs, timeout=25)
+    items = []
+    for j in jobs:
+        r = out[j["id"]]
+        res.evaluations += 1
+        res.count("config-cli")
+        res.nontrivial_keys.add(json.dumps(j["sts"]))
+        if r["timeout"] or clilib.crashed(r):
+            res.violations.append({"class": None, "what": "a pipeline built from a configuration file hung or crashed", "case": {"kind": "config-cli", "config": json.loads(j["files"]["cfg.json"])},
+                                   "observed": (r.get("err") or "")[-500:]})
+            continue
+        cf = vlib.clist(j["sts"], lambda st: "(mkStage %s %s %s)" % (vlib.clist(st["deps"], str), vlib.cbool(st["allow"]), {"none": "CNone", "false": "CFalse"}[st["cond"]]))
+        items.append("(%d, (%s, %s, (%s, %s)))" % (j["id"], cf, vlib.clist([st["ok"] for st in j["sts"]], vlib.cbool),
+                                                   vlib.clist([("m.%d" % i) in r["files"] for i in range(len(j["sts"]))], vlib.cbool), vlib.cbool(r["rc"] != 0)))
+    bad = set()
+    for rc, o, start, cnt in vlib.coq_eval_sharded(ctx.workdir, "cases_cfgcli", CFG_HEADER, items, lambda: CFG_FOOTER, shard=300):
+        if rc != 0:
+            res.mismatches.append({"what": "cases.v did not evaluate", "detail": o[-1500:]})
+            continue
+        pr = vlib.coq_printed(o)
+        if "BAD" not in pr:
+            res.mismatches.append({"what": "cases.v output lacks BAD", "detail": o[-800:]})
+        bad.update(vlib.nums(pr.get("BAD", "")))
+        res.traces_validated += cnt
+    for jid in sorted(bad):
+        j = jobs[jid]
+        r = out[jid]
+        res.violations.append({"class": None, "what": "a pipeline built from a configuration file: the stages that ran / the failure of the run are not what the graph, the outcomes and allow_failure determine",
+                               "case": {"kind": "config-cli", "stages": j["sts"], "config": json.loads(j["files"]["cfg.json"])},
+                               "observed": {"ran": sorted(r["files"]), "rc": r["rc"], "err": (r.get("err") or "")[-300:]}})
+
+
 def real_overlap_cli(ctx, res):
     """C04 through the binary with the REAL task runner: two independent stages each leave a mark and wait (up to 4 s) for the other's mark: they
     can only both succeed if they run at the same time.  Varied: a shared named context with / without hooks, interactive tasks, one task
@@ -464,7 +544,7 @@ def nested_conderr_cli(ctx, res):
 
 def run(ctx, prop):
     res = vlib.Result()
-    extra_kinds = {"nested-cli": nested_cli, "nested-conderr-cli": nested_conderr_cli, "nested-overlap-cli": nested_overlap_cli, "real-overlap-cli": real_overlap_cli, "twice-included-cli": twice_included_cli}
+    extra_kinds = {"nested-cli": nested_cli, "nested-conderr-cli": nested_conderr_cli, "nested-overlap-cli": nested_overlap_cli, "real-overlap-cli": real_overlap_cli, "twice-included-cli": twice_included_cli, "config-cli": config_cli}
     if ctx.replay_cases and any(c.get("kind") in extra_kinds for c in ctx.replay_cases):
         # a replay of a case of one of the through-the-binary sections runs that section again
         for kind in sorted({c.get("kind") for c in ctx.replay_cases if c.get("kind") in extra_kinds}):
@@ -584,6 +664,8 @@ def run(ctx, prop):
     if prop == "C01" and not ctx.replay_cases:
         nested_cli(ctx, res)
         twice_included_cli(ctx, res)
+    if prop == "C02" and not ctx.replay_cases:
+        config_cli(ctx, res)
     if prop == "C03" and not ctx.replay_cases:
         nested_conderr_cli(ctx, res)
         twice_included_cli(ctx, res)
